@@ -513,7 +513,7 @@ fn fuzz_bin(target: &str) -> PathBuf {
 }
 
 pub const FUZZ_BUILD_CMD: &str =
-    "cd /verif/fuzz && cp -n /repo/Cargo.lock Cargo.lock; CARGO_NET_OFFLINE=true cargo +nightly fuzz build -s none --target-dir /verif/target-fuzz";
+    "cd /verif/fuzz && cp -n /repo/Cargo.lock Cargo.lock; CARGO_NET_OFFLINE=true cargo +nightly fuzz build -O -s none --target-dir /verif/target-fuzz";
 
 fn build_fuzz_targets() -> Result<(), String> {
     let dir = fuzz_dir();
@@ -524,7 +524,7 @@ fn build_fuzz_targets() -> Result<(), String> {
         let _ = std::fs::copy("/repo/Cargo.lock", dir.join("Cargo.lock"));
     }
     let out = std::process::Command::new("cargo")
-        .args(["+nightly", "fuzz", "build", "-s", "none", "--target-dir"])
+        .args(["+nightly", "fuzz", "build", "-O", "-s", "none", "--target-dir"])
         .arg(vcore::verif_root().join("target-fuzz"))
         .current_dir(&dir)
         .env("CARGO_NET_OFFLINE", "true")
@@ -562,7 +562,7 @@ fn run_fuzz(ctx: &vcore::Ctx, report: &mut Report, known: &Known, findings: &mut
         report.inconclusive.push(format!("libFuzzer targets not built ({e}); setup: {FUZZ_BUILD_CMD}"));
         return FuzzOutcome { ran: false, notes };
     }
-    let runs: u64 = ctx.pick(60_000, 4_000_000);
+    let base_runs: u64 = ctx.pick(60_000, 3_000_000);
     let work = fuzz_dir().join("corpus-work");
     let artifacts_root = fuzz_dir().join("artifacts");
     let mut total_execs = 0u64;
@@ -577,6 +577,8 @@ fn run_fuzz(ctx: &vcore::Ctx, report: &mut Report, known: &Known, findings: &mut
         let art = artifacts_root.join(target);
         let _ = std::fs::remove_dir_all(&art);
         std::fs::create_dir_all(&art).ok();
+        // the type-lookup types are deep (TypeObject): ~6x slower per execution than the other targets
+        let runs = if *target == "type_lookup" { base_runs / 4 } else { base_runs };
         let seed = (vcore::mix(ctx.seed, &format!("C07/fuzz/{target}"), 0) % 0x7fff_fffe) + 1;
         let out = std::process::Command::new(&bin)
             .arg(&corpus)
@@ -730,7 +732,7 @@ pub fn run(ctx: &vcore::Ctx) -> ! {
             }
             // ... and through every other decoder (cross-format confusion), one palette type in eight for payloads
             for (k, d) in all_decoders.iter().enumerate() {
-                if matches!(d, Decoder::Payload(_)) && (k + committed) % 8 != 0 {
+                if matches!(d, Decoder::Payload(_)) && (k + committed) % 16 != 0 {
                     continue;
                 }
                 batch.push(Case { decoder: *d, bytes: data.clone(), derived: false, classes: vec!["committed-seed-cross"] });
@@ -762,7 +764,7 @@ pub fn run(ctx: &vcore::Ctx) -> ! {
 
     // phase 1: systematic sweep (truncation at every offset, every length-like word × boundary values),
     // per family: seeds in round-robin over the family's decoders, smallest first, until the family's budget is used
-    let sweep_budget: usize = ctx.pick(32_000, 1_500_000);
+    let sweep_budget: usize = ctx.pick(32_000, 400_000);
     let mut batch: Vec<Case> = vec![];
     for fam in 0..7 {
         let fam_budget = sweep_budget * FAMILY_SHARE[fam] / 100;
@@ -813,7 +815,7 @@ pub fn run(ctx: &vcore::Ctx) -> ! {
     let t_phase1 = ctx.t0.elapsed().as_secs_f64();
 
     // phase 2: random structure-aware mutation
-    let random_cases: usize = ctx.pick(85_000, 3_500_000);
+    let random_cases: usize = ctx.pick(85_000, 1_600_000);
     let mut rng = Src(ctx.rng_seed("mutation"));
     {
         // the stream is derived from the proptest runner seeded for this property (determinism rule)
@@ -897,7 +899,7 @@ pub fn run(ctx: &vcore::Ctx) -> ! {
         "phase_wall_s".into(),
         json!({"valid+seeds": t_phase0, "sweep": t_phase1 - t_phase0, "random": t_phase2 - t_phase1, "libfuzzer": t_phase3 - t_phase2, "minimise": t_end - t_phase3}),
     );
-    vcore::finish(ctx, meta(ctx.pick(50_000, 1_000_000)), report);
+    vcore::finish(ctx, meta(ctx.pick(50_000, 800_000)), report);
 }
 
 fn run_batch(report: &mut Report, known: &Known, findings: &mut Findings, batch: Vec<Case>, origin: &str) {
